@@ -31,7 +31,7 @@ impl LoopState {
         iter: ValueIter,
         depth: usize,
         with_loop_var: bool,
-        recurse_jump_target: Option<u32>,
+        recurse_jump_target: Option<(usize, u32)>,
         current_recursion_jump: Option<(u32, bool)>,
     ) -> LoopState {
         // for an iterator where the lower and upper bound are matching we can
@@ -119,7 +119,10 @@ pub(crate) struct Loop {
     pub idx: AtomicUsize,
     pub depth: usize,
     pub last_changed_value: Mutex<Option<Vec<Value>>>,
-    pub recurse_jump_target: Option<u32>,
+    // the instructions the loop was compiled into (by address) and the
+    // location of the loop in them.  The location means nothing in any
+    // other instructions.
+    pub recurse_jump_target: Option<(usize, u32)>,
     #[cfg(feature = "adjacent_loop_items")]
     iter: Mutex<AdjacentLoopItemIterWrapper>,
 }
